@@ -36,7 +36,7 @@ def run(ctx):
     if ctx.tier == "thorough":
         ctx.leanchecker("Slock.Properties.C07Arith")
         ctx.leanchecker("Slock.Properties.C07Journal")
-    exe = ctx.build_harness("server")
+    exe = ctx.build_harness("server", only=["zz_verif_aof_test.go", "zz_verif_aof_restart_test.go", "zz_verif_aof_rewrite_test.go"])
     if not exe:
         return
     n = 3000 if ctx.tier == "quick" else 60000
